@@ -58,7 +58,13 @@
  *   resolvconf=<path>   ARES_OPT_RESOLVCONF (default /dev/null)
  *   localdomain=<a,b> resoptions=<o1,o2> hostaliases=<path>   environment for this case
  *                       (commas become spaces for the first two)
- *   localip4=<a> localip6=<a> localdev=<name>   ares_set_local_*  (exercise BIND/SETSOCKOPT)
+ *   writefile=<path>:<hex>   create a file before the channel is initialised (e.g. the
+                      resolv.conf named by resolvconf=; with servers=0 and no csv= the
+                      servers then come from its nameserver lines).  A path "@/name" (also
+                      in resolvconf= and hosts=) lives in $VERIF_SIM_DIR (default "."),
+                      prefixed with the process id, and is removed at the end of the case;
+                      nameserver addresses of the content get srv= indexes.
+  localip4=<a> localip6=<a> localdev=<name>   ares_set_local_*  (exercise BIND/SETSOCKOPT)
  *   sockstatecb=1       register ARES_OPT_SOCK_STATE_CB, log SOCKSTATE
  *   pendingwritecb=1    ares_set_pending_write_cb, log PENDINGWRITE (see op flushwrites)
  *   serverstatecb=1     ares_set_server_state_callback, log SERVERSTATE
@@ -113,6 +119,7 @@
  *   setsortlist <a/m,b/m>        ares_set_sortlist
  *   setlocalip4 <a> | setlocalip6 <a> | setlocaldev <name>
  *   flushwrites                  ares_process_pending_write (FLUSHWRITES begin .. end)
+  writefile <path> <hex|->     (re)write a file (see writefile= above), e.g. before reinit   (WRITEFILE)
  * Time and processing:
  *   adv <ms> | advus <us>        advance the virtual clock (NOW <ms>.<us>)
  *   tmo [<maxms>]                ares_timeout(channel, maxtv|NULL, &tv):
